@@ -117,6 +117,92 @@ theorem ntsStep_skip (c : NtsCfg) (st : NtsSt) (h : Host)
     · simp [h0]
     · simp [h0, hc]
 
+/-! ### the seen-host check: the inner loop is the check-free loop on the first occurrences -/
+
+/-- the inner loop without the seen-host check (proof device; it is the loop of the code on a list that meets
+every host at most once) -/
+def walk0 (c : NtsCfg) : NtsSt → List Host → NtsSt
+  | st, [] => st
+  | st, h :: rest =>
+    if st.crash then st
+    else if st.replicas.length < c.totalRF ∧ haveRF c st = false then walk0 c (ntsStep c st h) rest
+    else st
+
+/-- the elements of `l` not in `sh`, first occurrences only, in order -/
+def dedup {α : Type} [DecidableEq α] (sh : List α) : List α → List α
+  | [] => []
+  | h :: r => if h ∈ sh then dedup sh r else h :: dedup (sh ++ [h]) r
+
+theorem walk0_stop (c : NtsCfg) (st : NtsSt)
+    (h : st.crash = true ∨ ¬ (st.replicas.length < c.totalRF ∧ haveRF c st = false)) :
+    ∀ l, walk0 c st l = st := by
+  intro l
+  cases l with
+  | nil => rfl
+  | cons a r =>
+    unfold walk0
+    rcases h with h | h
+    · simp [h]
+    · by_cases hc : st.crash = true
+      · simp [hc]
+      · simp only [hc, Bool.false_eq_true, if_false, h]
+
+/-- KF-C10-1 repair: the loop with `seenHosts` is the loop without it on the de-duplicated walk -/
+theorem ntsWalk_eq_walk0 (c : NtsCfg) : ∀ (l sh : List Host) (st : NtsSt),
+    ntsWalk c st sh l = walk0 c st (dedup sh l) := by
+  intro l
+  induction l with
+  | nil => intro sh st; simp [ntsWalk, dedup, walk0]
+  | cons h rest ih =>
+    intro sh st
+    by_cases h1 : st.crash = true
+    · rw [walk0_stop c st (Or.inl h1)]
+      unfold ntsWalk; simp [h1]
+    by_cases h2 : st.replicas.length < c.totalRF ∧ haveRF c st = false
+    · unfold ntsWalk dedup
+      simp only [h1, Bool.false_eq_true, if_false, h2, and_self, if_true]
+      by_cases hm : h ∈ sh
+      · simp only [hm, if_true]; exact ih sh st
+      · simp only [hm, if_false]
+        rw [ih]
+        conv => rhs; unfold walk0
+        simp only [h1, Bool.false_eq_true, if_false, h2, and_self, if_true]
+    · rw [walk0_stop c st (Or.inr h2)]
+      unfold ntsWalk
+      simp only [h1, Bool.false_eq_true, if_false, h2]
+
+theorem dedup_eq_filter_firsts {α : Type} [DecidableEq α] : ∀ (l sh : List α),
+    dedup sh l = (Spec.firsts l).filter (fun x => decide (x ∉ sh)) := by
+  intro l
+  induction l with
+  | nil => intro sh; simp [dedup, Spec.firsts]
+  | cons h rest ih =>
+    intro sh
+    unfold dedup
+    simp only [Spec.firsts, List.filter_cons]
+    by_cases hm : h ∈ sh
+    · simp only [hm, if_true, not_true_eq_false, decide_false, Bool.false_eq_true, if_false]
+      rw [ih, List.filter_filter]
+      apply List.filter_congr
+      intro x _
+      by_cases hx : x ∈ sh
+      · simp [hx]
+      · have : x ≠ h := by intro e; subst e; exact hx hm
+        simp [hx, this]
+    · simp only [hm, if_false, not_false_eq_true, decide_true, if_true]
+      rw [ih, List.filter_filter]
+      congr 1
+      apply List.filter_congr
+      intro x _
+      by_cases hx : x ∈ sh
+      · simp [hx]
+      · by_cases hxh : x = h
+        · simp [hxh]
+        · simp [hx, hxh]
+
+theorem dedup_nil_eq_firsts {α : Type} [DecidableEq α] (l : List α) : dedup [] l = Spec.firsts l := by
+  rw [dedup_eq_filter_firsts]; simp
+
 /-! ### invariants valid on every ring -/
 
 structure Good (c : NtsCfg) (st : NtsSt) : Prop where
@@ -199,13 +285,13 @@ theorem good_step (c : NtsCfg) (st : NtsSt) (h : Host) (g : Good c st) : Good c 
       · simp only [stC, upd_other _ _ _ _ hd] at hx
         exact g.skdc d x hx
 
-theorem good_walk (c : NtsCfg) : ∀ (l : List Host) (st : NtsSt), Good c st → Good c (ntsWalk c st l) := by
+theorem good_walk (c : NtsCfg) : ∀ (l : List Host) (st : NtsSt), Good c st → Good c (walk0 c st l) := by
   intro l
   induction l with
   | nil => intro st g; exact g
   | cons h rest ih =>
     intro st g
-    unfold ntsWalk
+    unfold walk0
     by_cases h1 : st.crash = true
     · simp [h1, g]
     · simp only [h1, Bool.false_eq_true, if_false]
@@ -224,13 +310,13 @@ theorem step_prefix (c : NtsCfg) (st : NtsSt) (h : Host) :
   · exact ⟨[], by rw [e]; simp [stC]⟩
 
 theorem walk_prefix (c : NtsCfg) : ∀ (l : List Host) (st : NtsSt),
-    ∃ ext, (ntsWalk c st l).replicas = st.replicas ++ ext := by
+    ∃ ext, (walk0 c st l).replicas = st.replicas ++ ext := by
   intro l
   induction l with
-  | nil => intro st; exact ⟨[], by simp [ntsWalk]⟩
+  | nil => intro st; exact ⟨[], by simp [walk0]⟩
   | cons h rest ih =>
     intro st
-    unfold ntsWalk
+    unfold walk0
     by_cases h1 : st.crash = true
     · exact ⟨[], by simp [h1]⟩
     · simp only [h1, Bool.false_eq_true, if_false]
@@ -272,7 +358,7 @@ theorem sum_ge_of_mem (l : List Nat) (v : Nat) (h : v ∈ l) : v ≤ l.sum := by
 /-- from the fresh state the walk takes the first host when its DC has rf > 0 and its rack is known -/
 theorem walk_head (c : NtsCfg) (htot : c.totalRF = (c.rfs.map (·.2)).sum) (h : Host) (rest : List Host)
     (hrf : rfOf c.rfs h.dc ≠ 0) (hr : h.rack ∈ c.racks h.dc) :
-    (ntsWalk c ntsInit (h :: rest)).replicas.head? = some h := by
+    (walk0 c ntsInit (h :: rest)).replicas.head? = some h := by
   have hmem := rfOf_mem c.rfs h.dc hrf
   have hpos : 0 < c.totalRF := by
     rw [htot]
@@ -284,7 +370,7 @@ theorem walk_head (c : NtsCfg) (htot : c.totalRF = (c.rfs.map (·.2)).sum) (h : 
       rw [List.all_eq_false]
       exact ⟨_, hmem, by simp [ntsInit]; exact hrf⟩
     simp [this]
-  unfold ntsWalk
+  unfold walk0
   simp only [ntsInit, Bool.false_eq_true, if_false, List.length_nil, hpos, true_and]
   have hh : haveRF c { replicas := [], inDC := fun _ => 0, seen := fun _ => [], skipped := fun _ => [], crash := false } = false := hhave
   simp only [hh, if_true]
